@@ -460,30 +460,41 @@ RULES = {
 }
 
 
-def run(ctx, prop, matchers=None, descr=None, tools_every=1, extra_failures=(), extra_eval=0, extra_nontrivial=0, extra_cov=None):
-    if ctx.replay:
-        rp = json.load(open(ctx.replay))
-        cases = [rp["case"]]
-        if "abs" not in cases[0]:
-            cases[0]["abs"] = rp.get("abs", {})
-    else:
-        cases = generate(ctx, prop)
-    items = [(i, c, prop, (i % tools_every == 0)) for i, c in enumerate(cases)]
+def generate_runs(ctx, prop):
+    """like generate(), one list of cases per generator run (documents already produced by an earlier run are dropped)"""
+    seen = set()
+    for tag, consts in gen_runs(ctx, prop):
+        res = ctx.model("Author", tag="Author_" + tag, constants=consts,
+                        invariants=["EmitCase", "BodyWellFormed", "PlainIsQuiet", "BudgetRespected"],
+                        required_actions=["AddItem"], heap="8g")
+        cases = []
+        for c in res.payload_lines():
+            key = sha(json.dumps(c["doc"], sort_keys=True))
+            if key in seen:
+                continue
+            seen.add(key)
+            cases.append(c)
+        yield cases
+
+
+def _process(ctx, prop, cases, tools_every, base_i):
+    """replay + trace validation of one list of cases -> (failures, nontrivial, evaluations, samples, nrecords)"""
+    items = [(base_i + i, c, prop, ((base_i + i) % tools_every == 0)) for i, c in enumerate(cases)]
     try:
         records = engine.parallel_map(replay, items, chunk=100)
     finally:
         cleanup_tmp()
-    records.sort(key=lambda r: (r["gid"], r["case"]["doc"].get("dev", 0), r["i"]))
     # plainest spelling first inside each content group (binds the convergence memo)
-    devs = {c_i: c["dev"] for c_i, c in enumerate(cases)}
+    devs = {base_i + c_i: c["dev"] for c_i, c in enumerate(cases)}
     records.sort(key=lambda r: (r["gid"], devs[r["i"]], r["i"]))
-    trace = [{k: v for k, v in r.items() if k != "text"} for r in records]
-    fails = ctx.validate("Trace_Docs", trace, constants={"Prop": prop}, stateful_key="gid", tag="Trace_Docs_" + prop)
+    trace = [{k: v for k, v in r.items() if k not in ("text", "repeat_of")} for r in records]
+    fails = ctx.validate("Trace_Docs", trace, constants={"Prop": prop}, stateful_key="gid", tag="Trace_Docs_%s_%d" % (prop, base_i))
     failures = []
     for r in records:
         if r["i"] in fails:
-            failures.append({"i": r["i"], "case": {"doc": r["case"]["doc"], "lines": r["case"]["lines"], "abs": cases[r["i"]]["abs"],
-                                                   "dev": cases[r["i"]]["dev"], "receipts": cases[r["i"]].get("receipts", [])},
+            c = cases[r["i"] - base_i]
+            failures.append({"i": r["i"], "case": {"doc": r["case"]["doc"], "lines": r["case"]["lines"], "abs": c["abs"],
+                                                   "dev": c["dev"], "receipts": c.get("receipts", [])},
                              "obs": r["obs"], "text": r["text"], "fails": fails[r["i"]]})
     if prop == "C02":
         nontrivial = sum(1 for c in cases if c["doc"]["body"] or c["doc"]["meta"] or c["doc"]["fm"] != "-")
@@ -494,10 +505,34 @@ def run(ctx, prop, matchers=None, descr=None, tools_every=1, extra_failures=(), 
     else:
         nontrivial = sum(1 for r in records if r["obs"]["routes"] and r["obs"]["routes"][0]["accepted"]
                          and (r["case"]["doc"]["body"] or r["case"]["doc"]["meta"]))
-    failures += list(extra_failures)
-    nontrivial += extra_nontrivial
     samples = [{"text": r["text"], "obs": _brief(r["obs"], prop)} for r in records[3:len(records):max(1, len(records) // 5)]][:5]
     evaluations = len(records) if prop != "C01" else sum(len(r["obs"]["routes"]) for r in records)
+    return failures, nontrivial, evaluations, samples, len(records)
+
+
+def run(ctx, prop, matchers=None, descr=None, tools_every=1, extra_failures=(), extra_eval=0, extra_nontrivial=0, extra_cov=None):
+    if ctx.replay:
+        rp = json.load(open(ctx.replay))
+        cases = [rp["case"]]
+        if "abs" not in cases[0]:
+            cases[0]["abs"] = rp.get("abs", {})
+        batches = [cases]
+    elif prop == "C01":
+        # C01 keeps six routes per document: one generator run at a time bounds the memory (Lifecycle is judged per record)
+        batches = generate_runs(ctx, prop)
+    else:
+        batches = [generate(ctx, prop)]          # the convergence memo of C03 spans generator runs
+    failures, nontrivial, evaluations, samples, base_i = [], 0, 0, [], 0
+    for cases in batches:
+        f, n, e, smp, nrec = _process(ctx, prop, cases, tools_every, base_i)
+        failures += f
+        nontrivial += n
+        evaluations += e
+        samples = (samples + smp)[:5]
+        base_i += len(cases)
+        del cases
+    failures += list(extra_failures)
+    nontrivial += extra_nontrivial
     return engine.report(
         ctx, failures=failures, matchers=matchers or {}, evaluations=evaluations + extra_eval, distinct_nontrivial=nontrivial,
         extra_coverage=extra_cov,
